@@ -166,6 +166,41 @@ pub fn run(ctx: &Ctx) {
             Ok(_) => ctx.pass(),
         }
     }
+    // every word list of length <= 5 over boundary words: total (a typed error or a value), and a well-formed prefix decodes to itself
+    let alpha: [Word; 6] = [0, 1, 2, 3, -1, Word::MAX];
+    let mut lists: Vec<Vec<Word>> = vec![vec![]];
+    let mut layer: Vec<Vec<Word>> = vec![vec![]];
+    for _ in 0..5 {
+        let mut next = Vec::new();
+        for l in &layer {
+            for a in alpha {
+                let mut t = l.clone();
+                t.push(a);
+                next.push(t);
+            }
+        }
+        lists.extend(next.iter().cloned());
+        layer = next;
+    }
+    for words in &lists {
+        let id = format!("codec/mutations-short/{:?}", words);
+        if !ctx.want(&id) {
+            continue;
+        }
+        match std::panic::catch_unwind(|| (decode::decode_mutations(words).ok(), decode::decode_mutation(words).ok())) {
+            Err(_) => ctx.fail(&id, "decoders are total on untrusted words", format!("PANIC: decode_mutation(s)({:?})", words)),
+            Ok((many, one)) => {
+                // whatever is accepted re-encodes to a prefix-compatible word list
+                let ok_one = one.as_ref().map(|m| words.starts_with(&want_single(m))).unwrap_or(true);
+                let ok_many = many.as_ref().map(|ms| ms.iter().all(|m| m.key.len() + m.value.len() + 2 <= words.len())).unwrap_or(true);
+                if ok_one && ok_many {
+                    ctx.pass();
+                } else {
+                    ctx.fail(&id, "an accepted mutation is the one its words encode", format!("words {:?}: decode_mutation {:?}, decode_mutations {:?}", words, one, many));
+                }
+            }
+        }
+    }
     // ---- hex <-> words
     let ws: Vec<Word> = vec![0, 1, -1, Word::MIN, Word::MAX, 0x0102030405060708, -0x0102030405060708, 0x7fffffff, 1 << 63 - 1];
     let mut seqs: Vec<Vec<Word>> = vec![vec![]];
